@@ -199,7 +199,7 @@ theorem smallHostText_lit (n : Nat) : HostKey.smallHostText n = ['u', 's', 'i', 
   simp [HostKey.smallHostText, HostKey.s]
 theorem smallCaText_lit (n : Nat) : HostKey.smallCaText n = ['u', 's', 'i', 'n', 'g', ' ', 's', 'm', 'a', 'l', 'l', ' '] ++ Text.natToStr n ++ ['-', 'b', 'i', 't', ' ', 'C', 'A', ' ', 'k', 'e', 'y', ' ', 'm', 'o', 'd', 'u', 'l', 'u', 's'] := by
   simp [HostKey.smallCaText, HostKey.s]
-theorem nsaText_lit : HostKey.nsaText = ['C', 'A', ' ', 'k', 'e', 'y', ' ', 'u', 's', 'e', 's', ' ', 'e', 'l', 'l', 'i', 'p', 't', 'i', 'c', ' ', 'c', 'u', 'r', 'v', 'e', 's', ' ', 't', 'h', 'a', 't', ' ', 'a', 'r', 'e', ' ', 's', 'u', 's', 'p', 'e', 'c', 't', 'e', 'd', ' ', 'a', 's', ' ', 'b', 'e', 'i', 'n', 'g', ' ', 'b', 'a', 'c', 'k', 'd', 'o', 'o', 'r', 'e', 'd', ' ', 'b', 'y', ' ', 't', 'h', 'e', ' ', 'U', '.', 'S', '.', ' ', 'N', 'a', 't', 'i', 'o', 'n', 'a', 'l', ' ', 'S', 'e', 'c', 'u', 'r', 'i', 't', 'y', ' ', 'A', 'g', 'e', 'n', 'c', 'y'] := by decide
+theorem nsaText_lit : HostKey.nsaText = "CA key uses elliptic curves that are suspected as being backdoored by the U.S. National Security Agency".toList := rfl
 theorem two2k_lit : (['2', '0', '4', '8', '-', 'b', 'i', 't', ' ', 'm', 'o', 'd', 'u', 'l', 'u', 's', ' ', 'o', 'n', 'l', 'y', ' ', 'p', 'r', 'o', 'v', 'i', 'd', 'e', 's', ' ', '1', '1', '2', '-', 'b', 'i', 't', 's', ' ', 'o', 'f', ' ', 's', 'y', 'm', 'm', 'e', 't', 'r', 'i', 'c', ' ', 's', 't', 'r', 'e', 'n', 'g', 't', 'h'] : Str) = Gen.two2kWarning := by decide
 theorem smallEcc_lit : (['2', '2', '4', '-', 'b', 'i', 't', ' ', 'E', 'C', 'C', ' ', 'm', 'o', 'd', 'u', 'l', 'u', 's', ' ', 'o', 'n', 'l', 'y', ' ', 'p', 'r', 'o', 'v', 'i', 'd', 'e', 's', ' ', '1', '1', '2', '-', 'b', 'i', 't', 's', ' ', 'o', 'f', ' ', 's', 'y', 'm', 'm', 'e', 't', 'r', 'i', 'c', ' ', 's', 't', 'r', 'e', 'n', 'g', 't', 'h'] : Str) = Gen.smallEccWarning := by decide
 
@@ -212,8 +212,9 @@ theorem hostkey_comments_eq_model (cfg : HostKey.Cfg) (h2 : cfg.two2k = Gen.two2
     (name : Str) (cert : Bool) (size : Nat) (caType : Str) (caSize : Nat) :
     Gen.Logic.hostkey_comments name cert (size : Int) caType (caSize : Int) [] [] = HostKey.comments cfg name cert size caType caSize := by
   simp only [Gen.Logic.hostkey_comments, two2k_lit, smallEcc_lit, fmtD_natCast, ← smallText_lit, ← smallHostText_lit, ← smallCaText_lit,
-    ← nsaText_lit, ← pEd_lit, ← pEcdsa_lit, ← tDss_lit, ← h2, ← he]
-  simp only [HostKey.comments, HostKey.limits, HostKey.isEcc]
+    ← pEd_lit, ← pEcdsa_lit, ← tDss_lit, ← h2, ← he]
+  simp only [HostKey.comments, HostKey.limits, HostKey.isEcc, nsaText_lit]
+  generalize "CA key uses elliptic curves that are suspected as being backdoored by the U.S. National Security Agency".toList = tn
   rcases Bool.eq_false_or_eq_true (Text.startsWith name HostKey.pEd) with h1 | h1 <;>
   rcases Bool.eq_false_or_eq_true (Text.startsWith name HostKey.pEcdsa) with h2 | h2 <;>
   rcases Bool.eq_false_or_eq_true (Text.startsWith caType HostKey.pEd) with h3 | h3 <;>
